@@ -599,6 +599,11 @@ impl Flag {
     pub fn clear(&self) {
         self.set.store(false, Ordering::SeqCst)
     }
+    /// set the flag from harness code (e.g. after a synchronous call on the connection object, which a real application
+    /// makes from inside the task that polls the connection)
+    pub fn wake_by_ref_pub(&self) {
+        self.set.store(true, Ordering::SeqCst);
+    }
 }
 
 impl Wake for Flag {
